@@ -2,7 +2,7 @@
 import vlib
 from props import solverstream as ss, tracecheck as tc, antie
 
-THEOREMS = ["C08_oracle_sound", "C08_explicit_first", "C08_trace_explicit", "C08_decide_legal", "C08_decide_classified", "C08_solver_model_decide_legal"]
+THEOREMS = ["C08_oracle_sound", "C08_explicit_first", "C08_trace_explicit", "C08_decide_legal", "C08_decide_classified", "C08_solver_model_decide_legal", "C08_solver_model_root_first", "C08_root_first_from_invariant", "C08_solver_model_decide_legal_by_invariants"]
 CHECKER = ("coqc Props/C08.v + Print Assumptions; harness solve_cases: (a) hook logs -> extracted check_sat_log (rules D1 "
            "and D2 enforced on every decision; theorem C08_trace_explicit), (b) whenever extracted o_explicit_first = "
            "Some fs the returned solution must contain fs, (c) hook logs -> extracted check_decides: every call of Solver::decide must "
